@@ -29,6 +29,9 @@ import (
 
 type Ctx struct {
 	S *schema.Schema
+	// KeepDeprecated makes Equal expect deprecated message fields to be present when the
+	// expected value has them (C04: a newer peer still transmits them; a reader decodes them).
+	KeepDeprecated bool
 }
 
 // Role describes one byte of an encoding.
